@@ -445,11 +445,14 @@ func TestC16(t *testing.T) {
 			e.honest("fork", yb, ex)
 			e.faulted("fork", yb, ex, false)
 			if e.forkAt > 2 && c.Bool("forkWithKnownPrefix") {
-				k := uint64(c.Int("fork.k", 1, int(min64(3, e.forkAt-2))))
+				k := uint64(c.Int("fork.k", 1, int(min64(8, e.forkAt-2))))
 				yb2 := e.a2.Range(e.forkAt-k+1, e.topY)
 				ex2 := ex
 				ex2.describe += fmt.Sprintf(" preceded by %d known momentums", k)
 				e.honest("fork-known-prefix", yb2, ex2)
+				if c.Bool("forkWithKnownPrefix.faults") {
+					e.faulted("fork-known-prefix", yb2, ex2, false)
+				}
 			}
 		}
 		c.R.Count("fault_deliveries", e.faults)
